@@ -182,6 +182,12 @@ impl SymKeyEncryptedSessionKey {
                 let iv = vec![0u8; sym_algorithm.block_size()];
                 sym_algorithm.decrypt_with_iv_regular(key, &iv, &mut decrypted_key)?;
 
+                // ensure minimal length so that we don't panic reading the algorithm octet, below
+                ensure!(
+                    !decrypted_key.is_empty(),
+                    "unexpected empty encrypted session key in v4 SKESK"
+                );
+
                 let sym_alg = SymmetricKeyAlgorithm::from(decrypted_key[0]);
                 let key = RawSessionKey::from(&decrypted_key[1..]);
 
